@@ -80,18 +80,18 @@ func matchFinding(fs []Finding, prop string, v *Violation) *Finding {
 
 // Merged is the coordinator's view after all workers ended.
 type Merged struct {
-	Check       *Check
-	Tier        string
-	Seed        int64
-	Evaluations int64
-	Distinct    map[uint64]struct{}
-	Cover       map[string]map[string]int
-	Counters    map[string]int64
-	Samples     []json.RawMessage
-	Violations  []Violation
-	VioCounts   map[string]int
-	Notes       []string
-	Extra       map[string]any
+	Check        *Check
+	Tier         string
+	Seed         int64
+	Evaluations  int64
+	Distinct     map[uint64]struct{}
+	Cover        map[string]map[string]int
+	Counters     map[string]int64
+	Samples      []json.RawMessage
+	Violations   []Violation
+	VioCounts    map[string]int
+	Notes        []string
+	Extra        map[string]any
 	Inconclusive []string
 }
 
@@ -216,12 +216,14 @@ func RunCoordinator(chk *Check, tier string, seed int64) int {
 				caseDesc := readWAL(dir, i)
 				if caseDesc == "" && !chk.WAL {
 					// re-run the shard with the write-ahead log on to attribute the crash
+					first := r
 					r2 := runShard(i, true)
 					if r2.err != nil {
 						caseDesc = readWAL(dir, i)
 						r = r2
 					} else {
-						m.Notes = append(m.Notes, fmt.Sprintf("shard %d crashed once but not on re-run", i))
+						m.Notes = append(m.Notes, fmt.Sprintf("shard %d ended abnormally once (exit %d) but not on re-run; stderr: %s", i, code, truncate(first.stderr, 2000)))
+						r.stderr = "NOT REPRODUCED ON RE-RUN\n" + first.stderr
 					}
 					wr = readWorker(dir, i)
 				}
